@@ -180,6 +180,47 @@ func VerifC18RotationTask() {
 	vp.Assert(sc.cache.GetWorkload() == nil, "current-rotation-task-clears")
 }
 
+// K5: every answer carries the trust bundle of the CA's current root, whichever resource is asked first, whichever
+// request triggers a signing, and however the root changes between signings.
+func VerifC18TrustBundle() {
+	rotateTime = verifRotateTimeStub
+	verifCA.last = time.Time{}
+	verifCA.calls, verifCA.failFirst, verifCA.rootFlip = 0, false, vp.Choice("rootChangesOnRenewal", 2) == 1
+	var tasks []queue.Task
+	var notified []string
+	sc := verifNewClient(&tasks, &notified)
+	currentRoot := func() string {
+		// the root delivered with the latest signing (verifGenerateNewSecret)
+		if verifCA.rootFlip && verifCA.calls >= 2 {
+			return "root-B"
+		}
+		return "root-A"
+	}
+	steps := 4 + vp.Tier()
+	for t := 0; t < steps; t++ {
+		p := vp.Name("step", t)
+		switch vp.Choice(p+".op", 3) {
+		case 0, 1:
+			name := []string{security.WorkloadKeyCertResourceName, security.RootCertReqResourceName}[vp.Choice(p+".resource", 2)]
+			item, err := sc.GenerateSecret(name)
+			vp.Assert(err == nil && item != nil, "request-is-answered")
+			vp.Reach("answered")
+			if name == security.RootCertReqResourceName {
+				// the trust bundle travels in the ROOTCA resource (a cached workload answer carries key and chain only)
+				vp.Assert(string(item.RootCert) == currentRoot(), "rootca-answer-carries-the-current-root")
+			}
+			if name == security.WorkloadKeyCertResourceName {
+				vp.Assert(len(item.CertificateChain) == 2 && len(item.PrivateKey) == 2 && item.CertificateChain[1] == item.PrivateKey[1], "key-matches-chain")
+				vp.Assert(int(item.CertificateChain[1]-'0') == verifCA.calls, "workload-answer-is-the-latest-certificate")
+			}
+		default:
+			if len(tasks) > 0 {
+				tasks[len(tasks)-1]() // the rotation timer of the latest certificate fires
+			}
+		}
+	}
+}
+
 // Mutant twin: "two concurrent callers always cause two signings" must be refuted.
 func VerifC18FlightTwin() {
 	rotateTime = verifRotateTimeStub
